@@ -67,6 +67,7 @@ var prfVerifyInValid = true
 func init() {
 	group("sigma", captureSigma)
 	group("zkp", captureZkp)
+	group("zkp2", captureZkp2)
 }
 
 // ---- generic helpers (prefix prf) ----
@@ -623,7 +624,7 @@ func prfAddB[T prfBytes](typ, name string, v T) {
 	add(typ, name, v, prfEqBytes[T], prfValidBytes[T])
 }
 
-func captureZkp() {
+func prfEnv() *prfZkpEnv {
 	env := &prfZkpEnv{}
 	rng := tr.Rng(seed, 220)
 	env.timed("keys", func() {
@@ -632,19 +633,30 @@ func captureZkp() {
 		env.rpBig = prfTrapdoor(prfPrime(prfSafe1536P), prfPrime(prfSafe1536Q), rng)
 		env.rpSmall = prfTrapdoor(prfPrime(prfSafe512P), prfPrime(prfSafe512Q), rng)
 	})
+	return env
+}
+
+// The zero-knowledge proofs over Paillier / ring-Pedersen moduli are split into two capture groups so that the
+// check can run them as separate processes.
+func captureZkp() {
+	env := prfEnv()
 	env.timed("prm", func() { prfCapPrm(env) })
-	env.timed("blummod", func() { prfCapBlummod(env) })
 	env.timed("enc", func() { prfCapEnc(env) })
 	env.timed("fac", func() { prfCapFac(env) })
 	env.timed("nthroot", func() { prfCapNthRoot(env) })
 	env.timed("pailliern", func() { prfCapPaillierN(env) })
+	env.timed("lp", func() { prfCapLp(env) })
+}
+
+func captureZkp2() {
+	env := prfEnv()
+	env.timed("blummod", func() { prfCapBlummod(env) })
 	env.timed("encelg", func() { prfCapEncElg(env) })
 	env.timed("affg", func() { prfCapAffg(env) })
-	env.timed("lp", func() { prfCapLp(env) })
 	env.timed("range", func() { prfCapRange(env) })
 	// The remaining protocols need 128 parallel Paillier repetitions on 3072-bit moduli (affgstar ~34 s,
-	// dec ~18 s, lpdl ~25 s): only with PRF_ZKP_FULL=1.
-	if os.Getenv("PRF_ZKP_FULL") != "" {
+	// dec ~18 s, lpdl ~25 s): thorough tier (or PRF_ZKP_FULL=1) only.
+	if thorough || os.Getenv("PRF_ZKP_FULL") != "" {
 		env.timed("affgstar", func() { prfCapAffgStar(env) })
 		env.timed("dec", func() { prfCapDec(env) })
 		env.timed("lpdl", func() { prfCapLpdl(env) })
